@@ -963,6 +963,15 @@ fn prim(t: &[&str]) -> Res {
 }
 
 fn main() {
+    // requests run on a thread with the default stack of a spawned thread (2 MiB) rather than on the 8 MiB main stack:
+    // that is what `cargo test` and a client's worker threads give the crate
+    let h = std::thread::Builder::new().stack_size(2 << 20).spawn(real_main).unwrap();
+    if h.join().is_err() {
+        std::process::exit(101);
+    }
+}
+
+fn real_main() {
     std::panic::set_hook(Box::new(|_| {}));
     let args: Vec<String> = std::env::args().collect();
     if args.len() > 1 && args[1] == "--config" {
